@@ -477,7 +477,13 @@ func (q dec) divBasic(u, v dec) {
 			// If n == qhl, the carry from subVV and the carry from addVV
 			// cancel out and don't affect u[j+n].
 			if n < qhl {
+				// The borrow left _DMax in u[j+n]; adding the carry back must
+				// wrap around in base _DB (in base 2**_W the Word addition
+				// wraps by itself).
 				u[j+n] += c
+				if u[j+n] == _DB {
+					u[j+n] = 0
+				}
 			}
 			qhat--
 		}
